@@ -160,13 +160,15 @@ def filter_case(ctx, rng, idx):
 
 # ---------------------------------------------------------------------------------------------------
 def ref_pvalue(w, N, Ks):
-    q = Fraction(1)
+    """P(Binomial(N, prod K_i / N) >= w), exactly, in integer arithmetic"""
+    a = 1
     for k in Ks:
-        q *= Fraction(k, N)
-    tail = Fraction(0)
+        a *= k
+    b = N ** len(Ks)  # q = a / b
+    tail = 0
     for j in range(w, N + 1):
-        tail += math.comb(N, j) * q**j * (1 - q) ** (N - j)
-    return float(tail)
+        tail += math.comb(N, j) * a**j * (b - a) ** (N - j)
+    return float(Fraction(tail, b**N))
 
 
 def svh_case(ctx, rng, idx):
@@ -198,8 +200,34 @@ def svh_case(ctx, rng, idx):
         if len(labels) >= n and rng.random() < 0.5:
             e = tuple(sorted(rng.sample(labels, n)))
             es.setdefault(e, 1)
+    fam = rng.random()
+    if fam < 0.12:
+        # heavy family: large hyperedges with large weights (products of the node counts beyond 2**63)
+        weighted = True
+        big = list(history.UNIVERSES["small"]) + [8, 9, 10, 11]
+        es = {}
+        for _ in range(rng.randint(1, 2)):
+            e = tuple(sorted(rng.sample(big, rng.randint(8, 10))))
+            es[e] = rng.randint(80, 160)
+        if rng.random() < 0.5:
+            es.setdefault(tuple(sorted(rng.sample(big, len(next(iter(es)))))), rng.randint(1, 5))
+    elif fam < 0.3 and len(labels) >= 4:
+        # targeted ties: disjoint equal-weight pairs whose common p-value lies in [bonf, 2*bonf)
+        weighted = True
+        groups = [tuple(sorted(labels[i: i + 2])) for i in range(0, len(labels) - 1, 2)][: rng.randint(2, 3)]
+        n_a = len({v for g in groups for v in g})
+        bonf = 0.01 / math.comb(n_a, 2)
+        cand = []
+        for w in range(2, 40):
+            Nn = w * len(groups)
+            p = ref_pvalue(w, Nn, [w, w])
+            if bonf <= p < len(groups) * bonf:
+                cand.append(w)
+        if cand:
+            w = rng.choice(cand)
+            es = {g: w for g in groups}
     h = hgx.Hypergraph(list(es), weighted=weighted, weights=list(es.values()) if weighted else None)
-    max_order = rng.choice([2, 3, 4, 5, 10])
+    max_order = rng.choice([2, 3, 4, 5, 10]) if fam >= 0.12 else 10
 
     def wit(extra=None):
         return {"edges": {repr(e): w for e, w in es.items()}, "weighted": weighted, "max_order": max_order, "extra": repr(extra)[:900]}
